@@ -416,7 +416,7 @@ func (c *UDPConn) SetReadBuffer(n int) error {
 	c.sync()
 	return err
 }
-func (c *UDPConn) SetWriteBuffer(n int) error         { return nil }
+func (c *UDPConn) SetWriteBuffer(n int) error { return nil }
 
 func (c *UDPConn) LocalAddr() net.Addr {
 	if !c.ok() {
@@ -440,7 +440,7 @@ type TCPConn struct {
 }
 
 func (c *TCPConn) Sock() *Socket { return c.k }
-func (c *TCPConn) ok() bool     { return c != nil && c.k != nil }
+func (c *TCPConn) ok() bool      { return c != nil && c.k != nil }
 func (c *TCPConn) sync() {
 	if RaceBuild {
 		raceSync(unsafe.Pointer(&c.k.sync))
